@@ -259,6 +259,12 @@ class Exporter:
             n = e[2].npath
             m = TO_BE.match(n)
             if m:
+                inner = peel(e[3][0])
+                # `addr.to_bits().to_be_bytes()` (or `u32::from(addr).to_be_bytes()`) are the octets of the address
+                if inner[0] == "call" and inner[2] is not None and inner[3] and (
+                        inner[2].npath in ("std::net::Ipv4Addr::to_bits", "std::net::Ipv6Addr::to_bits")
+                        or inner[2].npath in ("<u32 as std::convert::From<std::net::Ipv4Addr>>::from", "<u128 as std::convert::From<std::net::Ipv6Addr>>::from")):
+                    return ("atom", self.path_of(inner[3][0]), W.get(m.group(2)), "octets", self.owner_of(inner[3][0]))
                 return ("atom", self.path_of(e[3][0]), W.get(m.group(2)), "to_be_bytes", self.owner_of(e[3][0]))
             if TO_LE.match(n):
                 return ("atom", self.path_of(e[3][0]), None, "LITTLE-ENDIAN:" + n)
